@@ -986,6 +986,34 @@ func execOptionSlices(isWriter bool) any {
 			} else if got := buf.String(); got != "serialize=call-only render=call-only" {
 				bad("a call with its own driver options on a writer built with %v handed the driver %q", own, got)
 			}
+			// the same call options, given another value and used again: every call is handed what the
+			// options say at the time of the call
+			for _, val := range []string{"second call", "third call"} {
+				co.SetFormatOptions(recSerKey, val)
+				buf = nopCloser{&bytes.Buffer{}}
+				if err := wr.WriteStreamWithOptions(tinyDoc, buf, co); err != nil {
+					bad("a write through the recording driver fails: %v", err)
+				} else if got, exp := buf.String(), fmt.Sprintf("serialize=%s render=%s", val, val); got != exp {
+					bad("call options that were set to %q before the call handed the driver %q", val, got)
+				}
+			}
+			// a write without call options afterwards is handed the writer's own again, also when
+			// these are set after the writer was built
+			wr.Options.Format = "verif/recw"
+			for _, later := range []any{own, "set later", "set again"} {
+				if later != own {
+					wr.Options.SetFormatOptions(recSerKey, later)
+				}
+				buf = nopCloser{&bytes.Buffer{}}
+				if err := wr.WriteStream(tinyDoc, buf); err != nil {
+					bad("a write through the recording driver fails: %v", err)
+				} else if got, exp := buf.String(), fmt.Sprintf("serialize=%v render=%v", later, later); got != exp {
+					bad("a writer whose own driver options are %v handed the driver %q", later, got)
+				}
+				if got := wr.Options.GetFormatOptions(recSerKey); got != later {
+					bad("a writer whose driver options were set to %v answers %v when asked for them", later, got)
+				}
+			}
 		}
 		writer.UnregisterSerializer("verif/recw")
 		// a constructor records the format it is given, whether or not something is registered for it yet
